@@ -38,7 +38,7 @@ structure Pass where
   dur : Int
   /-- `truncateDuration`, ms -/
   trunc : Int
-deriving Repr
+deriving Repr, DecidableEq
 
 /-- `time.UnixMilli(t).Truncate(d).UnixMilli()` -/
 def truncMs (t d : Int) : Int := t - t % d
